@@ -175,6 +175,8 @@ class LoopSummary:
         self.iter_term = iter_term
         self.body_states = body_states   # list of (exitkind, State) at the end of one generic iteration
         self.head_env = head_env
+        self.ends = []              # while: (pass, how, State) for every way an iteration ends
+        self.n_entry_conds = 0
 
 
 class Exit:
@@ -223,6 +225,7 @@ class Evaluator:
         self.max_depth = max_depth
         self.fill_defaults = fill_defaults
         self.callee_hook = callee_hook
+        self.loops_seen = {}          # ast loop node -> [LoopSummary] (every evaluation of that loop)
         self.observer = observer    # observer(call_node, term, state) for every evaluated call
         self.unroll_limit = 8
         self.npaths = 0
@@ -230,12 +233,16 @@ class Evaluator:
         self.stats = {'forks': 0, 'calls_resolved': 0, 'calls_unresolved': 0, 'inlined': 0}
 
     # ------------------------------------------------------------------- entry
-    def run(self, fi, args=None, context=None, state=None, depth=0):
+    def run(self, fi, args=None, context=None, state=None, depth=0, closure=None):
         """Return the list of Exit (return/raise) of function `fi`.
         args: formal -> term (missing formals become symbols or their default);
         context: formal -> python literal (fixes literal-mode parameters)."""
         st = state.copy() if state is not None else State()
         st.env = {}
+        if closure:
+            # variables of the enclosing function (read-only view for a nested function inlined from its parent)
+            for k, v in closure.items():
+                st.env['closure:' + k] = v
         args = dict(args or {})
         for f in fi.all_formals():
             if context and f in context:
@@ -492,8 +499,17 @@ class Evaluator:
         tag = 'L%d' % ln
         modified = self._modified(s.body, fi)
 
+        broke_all = []
+
+        ends_all = []          # (passno, how, state): every way one iteration of the body ends
+        #   how in {'continue' (test true again), 'test' (test false), 'break', 'return', 'raise'}
+
         def run_pass(head, passno):
             back, exits, after = [], [], []
+            broke = []
+            ends = []
+            broke_all.append((passno, broke))
+            ends_all.append((passno, ends))
             for truth, s2, k, t in self._cond(s.test, head, mod, fi, depth):
                 if k == 'raise':
                     exits.append(Exit('raise', t, s2, s))
@@ -507,8 +523,11 @@ class Evaluator:
                         back.append(e.state)
                     elif e.kind == 'break':
                         after.append(e.state)
+                        broke.append(e.state)
+                        ends.append(('break', e.state.copy()))
                     else:
                         exits.append(e)
+                        ends.append((e.kind, e.state.copy()))
             cont = []
             for b in back:
                 for truth, s2, k, t in self._cond(s.test, b, mod, fi, depth):
@@ -516,9 +535,11 @@ class Evaluator:
                         exits.append(Exit('raise', t, s2, s))
                     elif truth:
                         cont.append(s2)
+                        ends.append(('continue', s2.copy()))
                     else:
                         s2.trace.append('%d:while exit after iteration %s' % (ln, passno))
                         after.append(s2)
+                        ends.append(('test', s2.copy()))
             return back, cont, exits, after
 
         st0 = st.copy()          # states are updated in place along a path: keep the entry state
@@ -543,9 +564,18 @@ class Evaluator:
             after += after2
             body_states += [('back2', b) for b in back2]
             summary_head = dict(head.env)
+        for passno, broke in (broke_all[:1] + broke_all[-1:] if len(broke_all) > 1 else broke_all):
+            body_states += [('break' if passno == '1' else 'break2', b) for b in broke]
         res = list(exits)
+        ends = []
+        for passno, es in (ends_all[:1] + ends_all[-1:] if len(ends_all) > 1 else ends_all):
+            ends += [(passno, how, e) for how, e in es]
+        summ = LoopSummary(s, 'while', None, None, body_states, summary_head, dict(st0.env))
+        summ.ends = ends
+        summ.n_entry_conds = len(st0.conds)
+        self.loops_seen.setdefault(s, []).append(summ)
         for a in after:
-            a.loops.append(LoopSummary(s, 'while', None, None, body_states, summary_head, dict(st0.env)))
+            a.loops.append(summ)
             if s.orelse:
                 res.extend(self._block(s.orelse, a, fi, depth))
             else:
@@ -563,6 +593,9 @@ class Evaluator:
                 head.env[name] = next(iter(vals))
                 continue
             head.env[name] = atom
+            if all(self.truth(('cmp', 'is', bs.env.get(name, S('undef:' + name)), NONE), bs) is False
+                   for bs in states) and (prev is None or atom in prev.notnone):
+                head.notnone.add(atom)
             if self._counter_steps(body, name):
                 los = [self.bounds(bs.env.get(name, S(name)), bs)[0] for bs in states]
                 if los and all(x is not None for x in los):
@@ -925,10 +958,15 @@ class Evaluator:
             # enclosing function variables (closures)
             f = fi
             if f is not None and f.parent is not None and e.id in f.parent.local_names():
+                if ('closure:' + e.id) in st.env:
+                    return [(st.env['closure:' + e.id], st, 'ok')]
                 return [(S('closure:' + e.id), st, 'ok')]
             d = self.P.resolve(mod, e, None)
             if d is not None:
                 t = self._module_literal(d)
+                if t is not None and t[0] in ('dict', 'list'):
+                    # the value is the module-level object itself (shared by every caller), not a fresh literal
+                    st.effects.append(('modref', d, t, getattr(e, 'lineno', 0)))
                 return [((t if t is not None else ('ref', d)), st, 'ok')]
             return [(S('global:' + e.id), st, 'ok')]
         if isinstance(e, ast.Attribute):
@@ -957,7 +995,16 @@ class Evaluator:
             def mk(ts):
                 parts = [('cmp', CMPOPS[type(op)], ts[i], ts[i + 1]) for i, op in enumerate(e.ops)]
                 return parts[0] if len(parts) == 1 else ('and', tuple(parts))
-            return self._ev_n(items, st, mod, fi, depth, mk)
+            outs = []
+            for t, s2, k in self._ev_n(items, st, mod, fi, depth, mk):
+                # a comparison of scalars whose outcome is known on this path is that boolean
+                # (`flag = n != 1` with n == 1, or with n >= 2 from the counter facts)
+                if k == 'ok' and t[0] == 'cmp' and self._scalar_decidable(t, s2):
+                    v = self.truth(t, s2)
+                    if v is not None:
+                        t = C(v)
+                outs.append((t, s2, k))
+            return outs
         if isinstance(e, ast.BoolOp):
             kind = 'and' if isinstance(e.op, ast.And) else 'or'
             return self._ev_n(list(e.values), st, mod, fi, depth, lambda ts: (kind, tuple(ts)))
@@ -1016,6 +1063,19 @@ class Evaluator:
                     s2.env[e.target.id] = t
             return outs
         raise AnalysisError('unsupported expression %s' % type(e).__name__, node=e)
+
+    def _scalar_decidable(self, t, st):
+        a, b = st.subst.get(t[2], t[2]), st.subst.get(t[3], t[3])
+        if is_c(a) and is_c(b):
+            return True
+        if t[1] in ('==', '!=', '<', '<=', '>', '>='):
+            for x in (a, b):
+                if not is_c(x):
+                    lo, hi = self.bounds(x, st)
+                    if lo is None and hi is None:
+                        return False
+            return True
+        return False
 
     def _module_literal(self, dotted):
         """Value term of a module-level constant table (tuple/list/dict literal of constants and function
@@ -1219,7 +1279,10 @@ class Evaluator:
             out = []
             sub = st.copy()
             saved_env = sub.env
-            exits = self.run(f, args=bound, state=sub, depth=depth + 1)
+            closure = None
+            if f.parent is not None and fi is not None and (f.parent is fi):
+                closure = {k: v for k, v in saved_env.items() if not k.startswith('closure:')}
+            exits = self.run(f, args=bound, state=sub, depth=depth + 1, closure=closure)
             for x in exits:
                 s2 = x.state
                 s2.env = dict(saved_env)
